@@ -278,7 +278,9 @@ func runSelftest(args []string) int {
 		return ok && op["op"] == "Range" && len(v) > 1
 	}, func(e map[string]any) { r := e["ret"].(map[string]any); r["v"] = r["v"].([]any)[1:] })
 	corrupt("lib-call-result", func(e map[string]any) bool { return e["ev"] == "done" && e["side"] == "impl" && e["call"] == "Merge" },
-		func(e map[string]any) { e["other"] = map[string]any{"f": map[string]any{}, "u": []any{float64(8), float64(1)}} })
+		func(e map[string]any) {
+			e["other"] = map[string]any{"f": map[string]any{}, "u": []any{float64(8), float64(1)}}
+		})
 	if fail > 0 {
 		fmt.Printf("selftest: %d failure(s)\n", fail)
 		return 1
